@@ -22,14 +22,16 @@ func init() {
 	register(&Property{
 		ID:        "C33",
 		Title:     "Maglev lookup tables are complete, balanced and node-independent",
-		Technique: "static analysis: determinism lint over the call closure (E-DET, go/ast+go/types), SSA dominance of sort/reset/dedupe guards, constant evaluation of the prime table",
+		Technique: "static analysis: determinism lint over the call closure (E-DET, go/ast+go/types), SSA dominance of sort/reset/dedupe guards, constant evaluation of the prime table, product/provenance of the map capacity, natural-loop loop-carried-dependence of the consistent-hash instance",
 		DesignRef: "DESIGN.md §3 C33",
 		Explanation: "Node-independence clauses of the consistent-hash table builder: (arch) no function in the call closure of New/AddBackend/Generate uses an architecture- or process-dependent primitive (binary.NativeEndian, unsafe, runtime.GOARCH, maphash, rand, clock, hostname...); " +
 			"(order) no function of the closure iterates a map with an order-sensitive effect, and in Generate a total-order sort of the backend-name slice dominates every store into the returned table and every lookup into the backend map is keyed by an element of that slice; " +
 			"(dedupe) a backend is inserted into the by-name map only when it is not already present, and the name is appended to the name slice on the same paths; " +
 			"(reset) every Write/Sum on a hash.Hash value is dominated by a Reset of that value (hash state cannot carry over from previously learned backends); " +
 			"(perm) each backend's preference list is a permutation of the slots: the table-size field m is stored only in the constructor literal, every value stored into a []int of length m lies in [0, m-1] and the factor of the list index (the Maglev skip) lies in [1, m-1] for every m >= 2 - interval evaluation with bounds affine in m, through the results of offsetAndSKip/hashFromString (error returns excluded where the use is guarded by err == nil); with m prime (next clause) skip is then coprime to m; " +
-			"(prime) Config.BPFLUTSizeMaglev returns the result of NextPrimeUint16, which returns only elements of the table `pr`, and `pr` is exactly the ascending list of all primes below 2^16 and is never written.",
+			"(prime) Config.BPFLUTSizeMaglev returns the result of NextPrimeUint16, which returns only elements of the table `pr`, and `pr` is exactly the ascending list of all primes below 2^16 and is never written; " +
+			"(capacity) Config.BPFMapSizeMaglev is (a result of BPFLUTSizeMaglev / NextPrimeUint16) × BPFMaglevMaxServices, i.e. the BPF map is sized from the same per-service table size the generator fills, not from a separately computed budget; " +
+			"(instance) outside the consistenthash package every ConsistentHash on which AddBackend/Generate is called is constructed (consistenthash.New, possibly through a wrapper) by the calling invocation, inside every loop that generates a table per iteration, and the receiver has no loop-carried dependence: one instance per service (the type accumulates backends and has no reset).",
 		NotDecided: "Balance (Maglev bound) and that the fill loop of Generate itself terminates with a full table given permutations (run-time indices into slices; needs M prime, which is decided only up to the config accessor); that the hash functions passed to New by the proxy are node-independent (fnv today); that the configured LUT size reaches New unchanged through the dataplane config plumbing; 32-bit int truncation of the uint32 hash.",
 		Assumptions: []string{
 			"go/types + go/ssa (x/tools v0.50.0) model of the current source, CGO_ENABLED=0 build",
@@ -61,6 +63,16 @@ func init() {
 				Old: "\th.Reset()\n", New: "", Expect: "C33.reset/"},
 			{Name: "LUT size no longer rounded to a prime", File: "felix/config/config_params.go",
 				Old: "return int(consistenthash.NextPrimeUint16(config.BPFMaglevMaxEndpointsPerService * consistenthash.MaglevEndpointLUTFactor))", New: "return int(uint16(config.BPFMaglevMaxEndpointsPerService * consistenthash.MaglevEndpointLUTFactor))", Expect: "C33.prime/BPFLUTSizeMaglev"},
+			{Name: "map sized from the un-rounded per-service budget", File: "felix/config/config_params.go",
+				Old: "return int(config.BPFLUTSizeMaglev()) * config.BPFMaglevMaxServices", New: "return config.BPFMaglevMaxEndpointsPerService * consistenthash.MaglevEndpointLUTFactor * config.BPFMaglevMaxServices", Expect: "C33.capacity/BPFMapSizeMaglev"},
+			{Name: "map sized for one table per endpoint instead of per service", File: "felix/config/config_params.go",
+				Old: "return int(config.BPFLUTSizeMaglev()) * config.BPFMaglevMaxServices", New: "return int(config.BPFLUTSizeMaglev()) * config.BPFMaglevMaxEndpointsPerService", Expect: "C33.capacity/BPFMapSizeMaglev"},
+			{Name: "constructor memoises the consistent-hash instance", File: "felix/bpf/proxy/syncer.go",
+				Old: "func (s *Syncer) newConsistentHash() *consistenthash.ConsistentHash {\n\treturn consistenthash.New(",
+				New: "var sharedCH *consistenthash.ConsistentHash\n\nfunc (s *Syncer) newConsistentHash() (ch *consistenthash.ConsistentHash) {\n\tif sharedCH != nil {\n\t\treturn sharedCH\n\t}\n\tdefer func() { sharedCH = ch }()\n\treturn consistenthash.New(", Expect: "C33.instance/Syncer.apply/Generate"},
+			{Name: "one lazily created consistent-hash instance shared by all services of an apply", File: "felix/bpf/proxy/syncer.go",
+				Old: "\t// insert or update existing services\n\tfor sname, sinfo := range state.SvcMap {\n\t\tsvc := sinfo.(Service)\n\t\tlog.WithField(\"service\", sname).Debug(\"Applying service\")\n\t\tskey := getSvcKey(sname, \"\")\n\t\ttopologyMode := svc.TopologyMode()\n\n\t\t// Topology Aware Routing has precedence over Traffic Distribution.\n\t\teps, topologyAwareApplied := FilterEpsByTopologyAwareRouting(state.EpsMap[sname], topologyMode, nodeZone)\n\t\tif !topologyAwareApplied {\n\t\t\tlog.Debugf(\"Topology Aware Routing not applied for service %s, mode %s. Trying Traffic Distribution...\", sname, topologyMode)\n\t\t\t// If Traffic Distribution can't be applied, it will return the original endpoints (cluster-wide).\n\t\t\teps = FilterEpsByTrafficDistribution(state.EpsMap[sname], nodeName, nodeZone)\n\t\t} else {\n\t\t\tlog.Debugf(\"Topology Aware Routing applied for service %s, mode %s.\", sname, topologyMode)\n\t\t}\n\n\t\t// In bpfNetworkBootstrap mode Felix reaches the API server through this service's\n\t\t// NAT; dropping its backends would sever and deadlock its own recovery, so keep the last-known-good.\n\t\tif isKubernetesAPIServerService(sname) && countReadyEndpoints(eps) == 0 {\n\t\t\tif fallback := s.apiServerFallbackEps(sname); len(fallback) > 0 {\n\t\t\t\tlog.WithField(\"service\", sname).Warn(\n\t\t\t\t\t\"Kubernetes API server service has no ready endpoints; retaining \" +\n\t\t\t\t\t\t\"last-known-good backends to avoid severing Felix's connection to the API server.\")\n\t\t\t\teps = fallback\n\t\t\t}\n\t\t}\n\n\t\tvar maglevEPs []k8sp.Endpoint\n\t\tif svc.UseMaglev() {\n\t\t\tch := s.newConsistentHash()\n",
+				New: "\tvar ch *consistenthash.ConsistentHash\n\t// insert or update existing services\n\tfor sname, sinfo := range state.SvcMap {\n\t\tsvc := sinfo.(Service)\n\t\tlog.WithField(\"service\", sname).Debug(\"Applying service\")\n\t\tskey := getSvcKey(sname, \"\")\n\t\ttopologyMode := svc.TopologyMode()\n\n\t\t// Topology Aware Routing has precedence over Traffic Distribution.\n\t\teps, topologyAwareApplied := FilterEpsByTopologyAwareRouting(state.EpsMap[sname], topologyMode, nodeZone)\n\t\tif !topologyAwareApplied {\n\t\t\tlog.Debugf(\"Topology Aware Routing not applied for service %s, mode %s. Trying Traffic Distribution...\", sname, topologyMode)\n\t\t\t// If Traffic Distribution can't be applied, it will return the original endpoints (cluster-wide).\n\t\t\teps = FilterEpsByTrafficDistribution(state.EpsMap[sname], nodeName, nodeZone)\n\t\t} else {\n\t\t\tlog.Debugf(\"Topology Aware Routing applied for service %s, mode %s.\", sname, topologyMode)\n\t\t}\n\n\t\t// In bpfNetworkBootstrap mode Felix reaches the API server through this service's\n\t\t// NAT; dropping its backends would sever and deadlock its own recovery, so keep the last-known-good.\n\t\tif isKubernetesAPIServerService(sname) && countReadyEndpoints(eps) == 0 {\n\t\t\tif fallback := s.apiServerFallbackEps(sname); len(fallback) > 0 {\n\t\t\t\tlog.WithField(\"service\", sname).Warn(\n\t\t\t\t\t\"Kubernetes API server service has no ready endpoints; retaining \" +\n\t\t\t\t\t\t\"last-known-good backends to avoid severing Felix's connection to the API server.\")\n\t\t\t\teps = fallback\n\t\t\t}\n\t\t}\n\n\t\tvar maglevEPs []k8sp.Endpoint\n\t\tif svc.UseMaglev() {\n\t\t\tif ch == nil {\n\t\t\t\tch = s.newConsistentHash()\n\t\t\t}\n", Expect: "C33.instance/Syncer.apply/Generate"},
 			{Name: "composite number in the prime table", File: "libcalico-go/lib/consistenthash/primes.go",
 				Old: "\t2, 3, 5, 7, 11, 13, 17, 19, 23, 29,\n", New: "\t2, 3, 5, 7, 11, 13, 17, 19, 23, 27,\n", Expect: "C33.prime/table"},
 		},
@@ -107,6 +119,10 @@ func runC33(c *Ctx) {
 	c33Dedupe(c, p)
 	c33Reset(c, p, cl)
 	c33Prime(c)
+	c.Rule("C33.capacity", "E-FLOW", "BPFMapSizeMaglev = (result of BPFLUTSizeMaglev / NextPrimeUint16) × BPFMaglevMaxServices: the map capacity is derived from the same per-service table size the generator fills", 1)
+	c33Capacity(c, p)
+	c.Rule("C33.instance", "E-LOOP", "every ConsistentHash on which AddBackend/Generate is called outside the package is constructed by the calling invocation, inside every loop that generates a table per iteration, with no loop-carried dependence of the receiver (one instance per service)", 2)
+	c33Instance(c)
 }
 
 func c33LogCall(f *types.Func) bool {
@@ -589,7 +605,19 @@ func c33Prime(c *Ctx) {
 	nres := 0
 	for _, r := range returnsOf(acc) {
 		for _, res := range r.Results {
-			for _, o := range origins(res, nil) {
+			for _, o := range origins(res, func(v ssa.Value) []ssa.Value {
+				// follow an in-package helper that computes the size
+				if call, ok := v.(*ssa.Call); ok && calleeOf(call.Common()) != next {
+					if g := call.Call.StaticCallee(); g != nil && g.Blocks != nil && g.Pkg == acc.Pkg {
+						var more []ssa.Value
+						for _, rr := range returnsOf(g) {
+							more = append(more, rr.Results...)
+						}
+						return more
+					}
+				}
+				return nil
+			}) {
 				nres++
 				call, ok := o.V.(*ssa.Call)
 				if !ok || calleeOf(call.Common()) != next {
@@ -704,4 +732,280 @@ func c33Prime(c *Ctx) {
 	}
 	c.Check(len(bad) == 0, "C33.prime/table", p.Pos(lit.Pos()),
 		fmt.Sprintf("%d elements: ascending, all prime, complete below 2^16, written only by the initialiser", len(lit.Elts)), strings.Join(bad, "; "))
+}
+
+// ----------------------------------------------------------------- capacity --
+
+// c33Capacity: the Maglev BPF map must hold BPFMaglevMaxServices complete
+// tables, so its size has to be derived from the very per-service table size the
+// generator is configured with: some additive term of BPFMapSizeMaglev's result
+// is a product with one factor that IS the LUT size (a result of
+// BPFLUTSizeMaglev or of NextPrimeUint16, possibly through an in-package helper
+// all of whose returns are such) and another factor computed from the
+// BPFMaglevMaxServices field.  A separately computed per-service budget
+// (endpoints × factor, not rounded to the prime) is not the LUT size.
+func c33Capacity(c *Ctx, p *Prog) {
+	lut := p.Func(c33Config, "Config.BPFLUTSizeMaglev")
+	size := p.Func(c33Config, "Config.BPFMapSizeMaglev")
+	next, _ := p.LookupObj(c33Primes, "NextPrimeUint16").(*types.Func)
+	maxSvc, _ := p.LookupObj(c33Config, "Config.BPFMaglevMaxServices").(*types.Var)
+	if lut == nil || size == nil || next == nil || maxSvc == nil {
+		c.Lost("Config.BPFLUTSizeMaglev / Config.BPFMapSizeMaglev / NextPrimeUint16 / Config.BPFMaglevMaxServices")
+	}
+	cfgPkg := p.SSAPkg(c33Config)
+	strip := func(v ssa.Value) ssa.Value {
+		for {
+			switch y := v.(type) {
+			case *ssa.Convert:
+				v = y.X
+			case *ssa.ChangeType:
+				v = y.X
+			default:
+				return v
+			}
+		}
+	}
+	var isLUT func(v ssa.Value, d int) bool
+	isLUT = func(v ssa.Value, d int) bool {
+		if d > 4 {
+			return false
+		}
+		switch y := strip(v).(type) {
+		case *ssa.Phi:
+			for _, e := range y.Edges {
+				if !isLUT(e, d+1) {
+					return false
+				}
+			}
+			return len(y.Edges) > 0
+		case *ssa.Call:
+			if calleeOf(y.Common()) == next {
+				return true
+			}
+			g := y.Call.StaticCallee()
+			if g == nil {
+				return false
+			}
+			if g == lut {
+				return true
+			}
+			if g.Pkg != cfgPkg || g.Blocks == nil {
+				return false
+			}
+			rets := returnsOf(g)
+			for _, r := range rets {
+				if len(r.Results) != 1 || !isLUT(r.Results[0], d+1) {
+					return false
+				}
+			}
+			return len(rets) > 0
+		}
+		return false
+	}
+	var usesSvc func(v ssa.Value, d int) bool
+	usesSvc = func(v ssa.Value, d int) bool {
+		hit := false
+		c44BackSlice(v, func(o ssa.Value) {
+			if fieldVar(o) == maxSvc {
+				hit = true
+			}
+			if call, ok := o.(*ssa.Call); ok && d < 3 {
+				if g := call.Call.StaticCallee(); g != nil && g.Pkg == cfgPkg && g.Blocks != nil {
+					for _, r := range returnsOf(g) {
+						for _, res := range r.Results {
+							if usesSvc(res, d+1) {
+								hit = true
+							}
+						}
+					}
+				}
+			}
+		})
+		return hit
+	}
+	var split func(v ssa.Value, op token.Token, out *[]ssa.Value)
+	split = func(v ssa.Value, op token.Token, out *[]ssa.Value) {
+		if bo, ok := strip(v).(*ssa.BinOp); ok && bo.Op == op {
+			split(bo.X, op, out)
+			split(bo.Y, op, out)
+			return
+		}
+		*out = append(*out, strip(v))
+	}
+	rets := returnsOf(size)
+	if len(rets) == 0 {
+		c.Lost("BPFMapSizeMaglev has no return")
+	}
+	bad := ""
+	for _, r := range rets {
+		if len(r.Results) != 1 {
+			c.Lost("BPFMapSizeMaglev does not return one value")
+		}
+		var vals []ssa.Value
+		for _, o := range origins(r.Results[0], func(v ssa.Value) []ssa.Value {
+			// follow an in-package helper that computes the size
+			if call, ok := v.(*ssa.Call); ok {
+				if g := call.Call.StaticCallee(); g != nil && g != lut && g.Pkg == cfgPkg && g.Blocks != nil && !isLUT(call, 0) {
+					var more []ssa.Value
+					for _, rr := range returnsOf(g) {
+						more = append(more, rr.Results...)
+					}
+					return more
+				}
+			}
+			return nil
+		}) {
+			vals = append(vals, o.V)
+		}
+		for _, v := range vals {
+			var terms []ssa.Value
+			split(v, token.ADD, &terms)
+			good := false
+			for _, t := range terms {
+				var fs []ssa.Value
+				split(t, token.MUL, &fs)
+				for i := range fs {
+					for j := range fs {
+						if i != j && isLUT(fs[i], 0) && usesSvc(fs[j], 0) {
+							good = true
+						}
+					}
+				}
+			}
+			if !good {
+				bad = fmt.Sprintf("the value %s returned at %s is not (per-service LUT size) × %s", pathN(v, 4), p.Pos(r.Pos()), maxSvc.Name())
+			}
+		}
+	}
+	c.Check(bad == "", "C33.capacity/BPFMapSizeMaglev", p.Pos(size.Pos()),
+		"map size = BPFLUTSizeMaglev/NextPrimeUint16 result × "+maxSvc.Name(),
+		bad+", with the LUT size taken from BPFLUTSizeMaglev()/NextPrimeUint16: the Maglev map is sized from a per-service budget that is not the (prime) table size the generator fills, so "+maxSvc.Name()+" complete tables do not fit and the last services' tables are left partly unwritten")
+}
+
+// ----------------------------------------------------------------- instance --
+
+const c33Proxy = "felix/bpf/proxy"
+
+// c33Instance: ConsistentHash accumulates backends and has no reset, so a table
+// is the table of ONE service only if the instance it is generated from was
+// built for it.  For every call of Generate / AddBackend outside the
+// consistenthash package: every non-nil origin of the receiver is a call, in
+// the same function, of a constructor returning a fresh instance
+// (consistenthash.New, or a function all of whose returns are such calls); and
+// for every natural loop containing a Generate call the receiver is created
+// inside that loop and has no loop-carried dependence (no header phi, no outer
+// variable read before this iteration wrote it): one instance per iteration.
+func c33Instance(c *Ctx) {
+	p := c.Load(c33Pkg, c33Proxy)
+	gen, _ := p.LookupObj(c33Pkg, "ConsistentHash.Generate").(*types.Func)
+	add, _ := p.LookupObj(c33Pkg, "ConsistentHash.AddBackend").(*types.Func)
+	newF := p.Func(c33Pkg, "New")
+	chPkg := p.SSAPkg(c33Pkg)
+	if gen == nil || add == nil || newF == nil || chPkg == nil {
+		c.Lost("consistenthash.New / ConsistentHash.Generate / ConsistentHash.AddBackend")
+	}
+	var fresh func(g *ssa.Function, d int) bool
+	fresh = func(g *ssa.Function, d int) bool {
+		if g == nil || d > 3 {
+			return false
+		}
+		if g == newF {
+			return true
+		}
+		if g.Blocks == nil {
+			return false
+		}
+		rets := returnsOf(g)
+		for _, r := range rets {
+			if len(r.Results) == 0 {
+				return false
+			}
+			for _, o := range origins(r.Results[0], nil) {
+				call, ok := o.V.(*ssa.Call)
+				if !ok || !fresh(call.Call.StaticCallee(), d+1) {
+					return false
+				}
+			}
+		}
+		return len(rets) > 0
+	}
+	var fns []*ssa.Function
+	for _, f := range p.AllFuncs() {
+		if f.Pkg == chPkg || (f.Pkg == nil && topFn(f).Pkg == chPkg) {
+			continue
+		}
+		fns = append(fns, f)
+	}
+	c33SortFuncs(fns)
+	nGen := 0
+	for _, f := range fns {
+		calls := callsIn(f, false, func(fn *types.Func) bool { return fn == gen || fn == add })
+		if len(calls) == 0 {
+			continue
+		}
+		loops := c33Loops(f)
+		genLoop := map[*c33Loop]bool{}
+		for _, cs := range calls {
+			if cs.Callee == gen {
+				for _, l := range loops {
+					if l.has(cs.Instr) {
+						genLoop[l] = true
+					}
+				}
+			}
+		}
+		for _, cs := range calls {
+			if cs.Callee == gen {
+				nGen++
+			}
+			recv := cs.Args()[0]
+			key := "C33.instance/" + fnName(f) + "/" + cs.Callee.Name()
+			site := p.Pos(cs.Instr.Pos())
+			bad, undecided := "", ""
+			var ctorCalls []*ssa.Call
+			for _, o := range origins(recv, nil) {
+				if o.Kind == "const" && isNilConst(o.V) {
+					continue
+				}
+				call, ok := o.V.(*ssa.Call)
+				switch {
+				case ok && fresh(call.Call.StaticCallee(), 0):
+					ctorCalls = append(ctorCalls, call)
+				case o.Kind == "param" || o.Kind == "freevar":
+					undecided = "the instance " + path(o.V) + " is handed in from outside " + fnName(f) + " (callers not followed)"
+				default:
+					bad = "the instance " + pathN(o.V, 3) + " is not constructed by this invocation (it outlives the service it is used for)"
+				}
+			}
+			if len(ctorCalls) == 0 && bad == "" && undecided == "" {
+				bad = "the receiver has no constructing call"
+			}
+			nLoops := 0
+			for _, l := range loops {
+				if !genLoop[l] || !l.has(cs.Instr) {
+					continue
+				}
+				nLoops++
+				for _, cc := range ctorCalls {
+					if !l.has(cc) {
+						bad = fmt.Sprintf("the instance is created at %s, outside the loop that generates one table per iteration", p.Pos(cc.Pos()))
+					}
+				}
+				if car := c33LoopCarried(l, recv); len(car) > 0 {
+					bad = car[0].What
+				}
+			}
+			switch {
+			case bad != "":
+				c.Violate(key, site, "%s.%s in %s: %s — ConsistentHash accumulates backends and has no reset, so the table generated for a later service also contains the backends of the services processed before it (foreign backends, share below the Maglev bound, and a different table on every node since services are visited in map order)", pathN(recv, 2), cs.Callee.Name(), fnName(f), bad)
+			case undecided != "":
+				c.Undecided(key, site, "%s", undecided)
+			default:
+				c.Ok(key, site, "receiver constructed by this invocation (%d constructor call(s)), per iteration of %d enclosing table-generating loop(s)", len(ctorCalls), nLoops)
+			}
+		}
+	}
+	if nGen == 0 {
+		c.Lost("no call of ConsistentHash.Generate in %s", c33Proxy)
+	}
 }
